@@ -1,7 +1,7 @@
 #!/usr/bin/env python3
 """seedrecheck.py <seeded/NAME> [PROP ...] : re-run checks (default: the seed's property) with the stored patch applied to /repo"""
 import sys, os, json, subprocess, time
-d = sys.argv[1].rstrip('/'); meta = json.load(open(d + '/meta.json'))
+d = os.path.abspath(sys.argv[1].rstrip('/')); meta = json.load(open(d + '/meta.json'))
 props = sys.argv[2:] or [meta['property']]
 assert subprocess.run('git -C /repo status --short | grep -v "^??" | wc -l', shell=True, stdout=subprocess.PIPE).stdout.strip() == b'0', '/repo not clean'
 subprocess.check_call(f'git -C /repo apply {d}/patch.diff', shell=True)
